@@ -57,7 +57,7 @@ _BKIND = st.sampled_from(['unset', 'unset', 'unset', 'none', 'none', 'scalar', '
 _CLS = st.sampled_from(['min', 'min', 'max', 'max', 'cstep'])
 _METHOD = st.sampled_from(METHODS)
 _ONE_TEN = st.integers(1, 10)
-_XKIND = st.sampled_from(['zero', 'scalar', 'scalar', 'array', 'complex'])
+_XKIND = st.sampled_from(['zero', 'scalar', 'scalar', 'array', 'complex', 'int', 'intarray'])
 
 
 @st.composite
@@ -77,6 +77,10 @@ def gen_case(draw):
         x = draw(_XS)
     elif xkind == 'array':
         x = [draw(_XS) for _ in range(size)]
+    elif xkind == 'int':            # Python int / integer-dtype arrays are ordinary inputs (Derivative(f)(1))
+        x = {'int': draw(st.integers(-1000, 1000))}
+    elif xkind == 'intarray':
+        x = {'ints': [draw(st.integers(-1000, 1000)) for _ in range(size)]}
     else:
         x = {'re': draw(_XS), 'im': draw(_XS)}
     # --- options -------------------------------------------------------------------------
@@ -91,7 +95,7 @@ def gen_case(draw):
     elif bkind == 'tiny':
         opts['base_step'] = 10.0 ** draw(st.floats(-20, -17))
     elif bkind in ('array', 'array0'):
-        k = size if xkind == 'array' else draw(st.integers(1, 4))
+        k = size if xkind in ('array', 'intarray') else draw(st.integers(1, 4))
         b = [draw(_BS) for _ in range(k)]
         if bkind == 'array0':
             b[draw(st.integers(0, k - 1))] = 0.0
@@ -116,6 +120,10 @@ def gen_case(draw):
 
 
 def _x_value(x):
+    if isinstance(x, dict) and 'int' in x:
+        return int(x['int'])
+    if isinstance(x, dict) and 'ints' in x:
+        return np.array(x['ints'], dtype=np.int64)
     if isinstance(x, dict):
         return complex(x['re'], x['im'])
     if isinstance(x, list):
@@ -299,7 +307,7 @@ class C10(Prop):
             'value (base_step None, 10^U(-8,1), arrays, 0, 1e-20..1e-17; step_ratio None, U(1.05,16), '
             'powers of two; num_steps None, 1..25; step_nom None, U(0.1,10); offset integer or real in '
             '-4..4; num_extrap 0..9; use_exact_steps; check_num_steps; scale None, U(1,20); CStep path, '
-            'dtheta), method x n 1..10 x order 1..10, x = 0 / +-10^U(-3,3) / [-1,1] / arrays of 1..4 / '
+            'dtheta), method x n 1..10 x order 1..10, x = 0 / +-10^U(-3,3) / [-1,1] / arrays of 1..4 / Python ints and int64 arrays in -1000..1000 / '
             'complex (CStep). Enumerated grid: 5 methods x n 1..10 (multicomplex n<=2) x order 1..10. '
             'Non-trivial = at least three options passed with a non-default value, or x != 0 (grid '
             'points count as non-trivial when order > 2 or n > 1); distinct by the whole case.')
